@@ -62,6 +62,7 @@ type Engine struct {
 	uf         map[string]bool
 	curFunc    string
 	bytesAxiom bool
+	boxStrAxiom bool
 	funcLemmas map[string][]string
 	onStore    func(st *State, key, ref string)
 	onBaseRefArray func(arr string)
@@ -216,9 +217,8 @@ func (e *Engine) baseHeap(key string, sh *Shape) []string {
 		if len(sorts) == 1 {
 			name = smtSym("H." + key)
 		}
-		_, seen := e.decls[name]
 		out[i] = e.declConst(name, "(Array Int "+s+")")
-		if !seen && len(isRef) == len(sorts) && isRef[i] && e.onBaseRefArray != nil {
+		if len(isRef) == len(sorts) && isRef[i] && e.onBaseRefArray != nil {
 			e.onBaseRefArray(out[i])
 		}
 	}
